@@ -262,10 +262,10 @@ void profile_resolve(Gen &g) {
 	bool pure_cols = r.chance(2, 3); int pure_rounds = pure_add ? r.range(1, 3) : 0;
 	for (int k = 0; k < rounds; k++) {
 		if (k < pure_rounds) {
-			int kk = r.range(1, 3);
+			int kk = pure_cols ? r.range(2, 4) : r.range(1, 3);   // several columns at once: the ones that do not enter first are priced again after every pivot
 			for (int t = 0; t < kk; t++) { Op e; for (int q = 0; q < 80; q++) { e = g.gen_edit(0); std::string w = e.s("what"); if (pure_cols ? (w == "addcol" || w == "addcols") : (w == "addrow" || w == "addrows")) break; } g.seti(e, "o", oi);
 				/* a generated column is one that prices out: its cost has the sign of the objective's direction more often than not */
-				if (pure_cols && r.chance(2, 3)) { std::string c = p.lps[0].objsense > 0 ? "-" + g.pos() : g.pos(); if (e.s("what") == "addcol") { g.set(e, "obj", c); g.set(e, "lo", "0"); g.set(e, "up", "inf"); } else { g.set(e, "obj0", c); g.set(e, "lo0", "0"); g.set(e, "up0", "inf"); } }
+				if (pure_cols && r.chance(5, 6)) { std::string c = p.lps[0].objsense > 0 ? "-" + g.pos() : g.pos(); if (e.s("what") == "addcol") { g.set(e, "obj", c); g.set(e, "lo", "0"); g.set(e, "up", "inf"); } else { g.set(e, "obj0", c); g.set(e, "lo0", "0"); g.set(e, "up0", "inf"); } }
 				p.ops.push_back(e); }
 			p.ops.push_back(direct());
 			if (r.chance(1, 4) && g.ok("tableau")) { Op t = g.mk(0, "tableau"); g.seti(t, "o", oi); p.ops.push_back(t); }
@@ -449,7 +449,7 @@ void profile_io(Gen &g, bool damage_heavy) {
 			g.set(w, "path", strf("f%d", nfile++)); g.seti(w, "comp", r.below(3)); io_faults(w, true); p.ops.push_back(w);
 			if (damage_heavy || (g.faults && r.chance(1, 3))) { int nd = r.range(1, 2); for (int t = 0; t < nd; t++) { Op dm = g.mk(0, "damage"); g.seti(dm, "pick", r.below(8)); g.set(dm, "kind", std::vector<std::string>{"torn", "flip", "zero_tail", "block_drop", "block_dup", "token", "token", "torn"}[r.below(8)]); g.seti(dm, "at", r.below(100000)); g.seti(dm, "len", r.below(56)); g.seti(dm, "bit", r.below(8)); p.ops.push_back(dm); } }
 			Op rd = g.mk(0, "read"); g.seti(rd, "pick", r.chance(1, 5) ? (long)r.below(6) : -1); g.set(rd, "via", r.chance(1, 3) ? "reader" : "path"); io_faults(rd, false); p.ops.push_back(rd);
-			if (r.chance(1, 10)) { Op ms = g.mk(0, "read"); g.set(ms, "fmt", r.chance(1, 2) ? "LP" : "MPS"); g.set(ms, "via", "path"); g.seti(ms, "missing", r.chance(1, 2) ? 5 : r.range(300, 900)); if (r.chance(1, 3)) g.seti(ms, "sweep", 1 + r.below(6)); p.ops.push_back(ms); }
+			if (r.chance(1, 6)) { Op ms = g.mk(0, "read"); g.set(ms, "fmt", r.chance(1, 2) ? "LP" : "MPS"); g.set(ms, "via", "path"); g.seti(ms, "missing", r.chance(1, 2) ? 5 : r.range(300, 900)); if (r.chance(1, 2)) g.seti(ms, "sweep", 1 + r.below(6)); p.ops.push_back(ms); }
 			if (r.chance(1, 2)) {   // chain: write the re-read object in the other format and read again
 				Op w2 = g.mk(0, "write"); g.seti(w2, "o", -1); g.set(w2, "fmt", w.s("fmt") == "LP" ? "MPS" : "LP"); g.set(w2, "via", "path"); g.set(w2, "path", strf("f%d", nfile++)); g.seti(w2, "comp", r.below(3)); p.ops.push_back(w2);
 				Op r2 = g.mk(0, "read"); g.seti(r2, "pick", -1); g.set(r2, "via", "path"); p.ops.push_back(r2);
